@@ -10,9 +10,9 @@ use icy_engine::{
 
 pub const EXTS: [&str; 19] = ["ans", "ice", "diz", "icy", "idf", "bin", "xb", "tnd", "pcb", "avt", "asc", "adf", "msg", "an1", "an5", "an9", "seq", "ata", "xyz"];
 
-pub const DISK_FAULTS: [&str; 17] = [
+pub const DISK_FAULTS: [&str; 18] = [
     "short", "torn", "lost_sector", "stale_tail", "bitrot", "overwrite", "misdirected", "dup_sector", "misnamed", "sauce_tail_only", "comnt_cut", "header_extreme",
-    "number_extreme", "sauce_field_extreme", "sauce_text_bytes", "tdf_name_bytes", "utf8_char_insert",
+    "number_extreme", "sauce_field_extreme", "sauce_text_bytes", "tdf_name_bytes", "utf8_char_insert", "tnd_far_jump",
 ];
 
 /// Faults of the clipboard channel (bytes another process put there), on top of the generic ones.
@@ -255,6 +255,16 @@ pub fn base_file_ext(rng: &mut Rng, force: Option<&str>) -> (String, String, Vec
             let f = BitFont::from_ansi_font_page(rng.usize(42)).unwrap_or_default();
             if rng.chance(1, 6) {
                 return ("BitFont::from_bytes".into(), "font.psf".into(), big_font(rng));
+            }
+            if rng.chance(1, 8) {
+                // a PSF2 font that is consistent except for one header field
+                let mut b = f.to_psf2_bytes().unwrap_or_default();
+                if b.len() >= 32 {
+                    let field = 2 + rng.usize(6);
+                    let v: u32 = *rng.pick(&[0u32, 1, 7, 9, 255, 256, 0x7fff_ffff, 0xffff_ffff]);
+                    b[field * 4..field * 4 + 4].copy_from_slice(&v.to_le_bytes());
+                }
+                return ("BitFont::from_bytes".into(), "font.psf".into(), b);
             }
             let bytes = match rng.below(3) {
                 0 => f.to_psf2_bytes().unwrap_or_default(),
@@ -654,6 +664,39 @@ pub fn disk_fault(rng: &mut Rng, kind: &str, name: &mut String, bytes: &mut Vec<
             }
             format!("header_extreme at={at} val={}", to_hex(v))
         }
+        "tnd_far_jump" => {
+            // a Tundra position record that jumps far away from what has been drawn, optionally in a file whose
+            // SAUCE record declares the widest width the engine accepts
+            if len < 9 || &bytes[1..9] != b"TUNDRA24" {
+                return "tnd_far_jump noop".into();
+            }
+            let y: u32 = *rng.pick(&[1000u32, 65_533, 65_534, 65_535, 0x7fff_ffff, 0x8000_0000]);
+            let x: u32 = *rng.pick(&[0u32, 79, 80, 1_000_000]);
+            let mut rec = vec![1u8];
+            rec.extend(y.to_be_bytes());
+            rec.extend(x.to_be_bytes());
+            rec.push(b'A');
+            bytes.splice(9..9, rec);
+            let wide = rng.chance(1, 2);
+            if wide {
+                let has = bytes.len() >= 128 && &bytes[bytes.len() - 128..bytes.len() - 123] == b"SAUCE";
+                if !has {
+                    let n = bytes.len() as u32;
+                    bytes.push(0x1a);
+                    bytes.extend(b"SAUCE00");
+                    bytes.extend(std::iter::repeat(b' ').take(35 + 20 + 20));
+                    bytes.extend(b"20240101");
+                    bytes.extend(n.to_le_bytes());
+                    bytes.extend([1, 8]);
+                    bytes.extend([80, 0, 25, 0, 0, 0, 0, 0, 0, 0]);
+                    bytes.extend(std::iter::repeat(0).take(22));
+                }
+                let base = bytes.len() - 128;
+                bytes[base + 96] = 0xe8;
+                bytes[base + 97] = 0x03;
+            }
+            format!("tnd_far_jump y={y} x={x} sauce_width_1000={wide}")
+        }
         "sauce_text_bytes" => {
             // a text field of the SAUCE record (title, author, group, font name) or a comment line holds bytes
             // outside ASCII at chosen places: a single 0x80, 0xFF, 0x7F, NUL, or nothing but high bytes
@@ -803,6 +846,8 @@ pub fn gen_load(prop: &'static str, rng: &mut Rng, _run: u64, _thorough: bool) -
                 } else {
                     "utf8_char_insert"
                 }
+            } else if is_buffer && name.ends_with(".tnd") && rng.chance(1, 3) {
+                "tnd_far_jump"
             } else if is_buffer && name.ends_with(".bin") && rng.chance(1, 3) {
                 // a .bin file has no header: its geometry is whatever the SAUCE record declares
                 "sauce_field_extreme"
